@@ -244,6 +244,7 @@ func initZZ() {
 	Z("Stdout", func(fr *frame, a []value) value { return strings.Join(fr.e.stdout, "") })
 	Z("Opaque", func(fr *frame, a []value) value { return fr.e.opaque })
 	Z("Budget", func(fr *frame, a []value) value { fr.e.Budget = asInt64(a[0]); return nil })
+	Z("CallDepth", func(fr *frame, a []value) value { fr.e.MaxDepth = int(asInt64(a[0])); return nil })
 	Z("IsConcrete", func(fr *frame, a []value) value {
 		i := a[0].(iface)
 		return !isSym(i.v)
